@@ -87,6 +87,22 @@ impl TileIndex {
 //@loop 1 iter=it
 			invariant writer.sink.buf@ == records(self.index@, it.index@ as int),
 //@end
+// R7 (loop shape): iter_mut().for_each(closure) -> index loop over the same vector, same assignment
+//@extract fn file="versatiles_container/src/container/versatiles/types/tile_index.rs" scope="impl TileIndex" name="add_offset"
+//@rewrite "self .index .iter_mut() .for_each(|r| r.offset = r.offset" => "for vi in 0..self.index.len() { self.index[vi].offset = self.index[vi].offset" R7
+//@rewrite "));" => "); }" R7
+//@spec
+		// every entry is re-based by the block's offset (block-relative -> file-absolute, versatiles v02), lengths untouched,
+		// no entry added or dropped, no panic for any offset (saturating: repaired in 9df5b8f3)
+		ensures final(self).index@.len() == old(self).index@.len(),
+			forall|i: int| 0 <= i < old(self).index@.len() ==> (#[trigger] final(self).index@[i]).length == old(self).index@[i].length
+				&& final(self).index@[i].offset == (if old(self).index@[i].offset + offset > u64::MAX { u64::MAX as int } else { old(self).index@[i].offset + offset }),
+//@loop 1 iter=it
+			invariant self.index@.len() == old(self).index@.len(), it.iter.end == old(self).index@.len(),
+				forall|i: int| 0 <= i < it.index@ ==> (#[trigger] self.index@[i]).length == old(self).index@[i].length
+					&& self.index@[i].offset == (if old(self).index@[i].offset + offset > u64::MAX { u64::MAX as int } else { old(self).index@[i].offset + offset }),
+				forall|i: int| it.index@ <= i < self.index@.len() ==> #[trigger] self.index@[i] == old(self).index@[i],
+//@end
 //@extract fn file="versatiles_container/src/container/versatiles/types/tile_index.rs" scope="impl TileIndex" name="new_empty"
 //@ret r
 //@spec
